@@ -307,8 +307,21 @@ def check_lookups(ctx, case, cache, m, nets, dnets, where):
     return True
 
 
-def run_real_seq(ctx, case, ops, every=False, lookups=True):
-    """fresh real cache, apply ops, oracle; returns (per-op replies if every else final digest)"""
+def lookup_reply(cache, s, d):
+    """get_router_info as the driver's "get" answers it"""
+    ri = cache.get_router_info(s, d)
+    if ri is None:
+        return {"r": "ok", "a": None, "dn": None}
+    return {"r": "ok", "a": aid(ri.address), "dn": [[k, ri.dnets[k]] for k in sorted(ri.dnets)]}
+
+
+def lookup_key(op, i):
+    return (op[1], DNETS[i % len(DNETS)])
+
+
+def run_real_seq(ctx, case, ops, every=False, lookups=True, look=None):
+    """fresh real cache, apply ops, oracle; returns (per-op replies if every else final digest);
+    `look` (a list) receives one get_router_info reply per operation"""
     from bacpypes.netservice import RouterInfoCache
     cache = RouterInfoCache()
     m = {}
@@ -347,6 +360,8 @@ def run_real_seq(ctx, case, ops, every=False, lookups=True):
                 replies.append({"r": "ok", "d": cache_digest(cache)})
             else:
                 replies.append({"r": "err", "k": r, "d": cache_digest(cache)})
+            if look is not None:
+                look.append(lookup_reply(cache, *lookup_key(op, i)))
             if not ok:
                 return replies
     if every:
@@ -441,14 +456,24 @@ def enum_specs(alpha_name, n_alpha, maxlen, plen, per_shard, model, stream):
 
 def run_lockstep_cache(ctx, stream, ops, probes_every=7):
     case = {"stream": stream, "ops": ops}
-    a = run_real_seq(ctx, case, ops, every=True, lookups=True)
+    look = []
+    a = run_real_seq(ctx, case, ops, every=True, lookups=True, look=look)
     n = len(a)
     if ctx.model_ok:
         drv = core.Driver("drv_c19")
-        b = drv.ask([{"op": "reset"}] + [{"op": "c", "o": op} for op in ops[:n]])[1:]
+        reqs = [{"op": "reset"}]
+        for i, op in enumerate(ops[:n]):
+            s_, d_ = lookup_key(op, i)
+            reqs += [{"op": "c", "o": op}, {"op": "get", "s": s_, "d": d_}]
+        b = drv.ask(reqs)[1:]
         cases = [{"stream": stream, "ops": ops[:i + 1]} for i in range(n)]
-        ctx.compare_stream(stream, cases, a, b,
+        ctx.compare_stream(stream, cases, a, b[0::2],
                            sig=lambda c, m: (m.get("br") or "?", shape(m.get("d", "")) if n <= 8 else ""))
+        if len(look) == n:
+            gcases = [{"stream": stream + "-get", "ops": ops[:i + 1], "get": list(lookup_key(ops[i], i))}
+                      for i in range(n)]
+            ctx.compare_stream(stream + "-get", gcases, look, b[1::2],
+                               sig=lambda c, m: ("get", "miss" if m.get("a") is None else "hit%d" % min(len(m.get("dn") or []), 3)))
     else:
         for _ in range(n):
             ctx.count(stream)
@@ -909,16 +934,54 @@ def shard_any(ctx, spec):
     globals()[fn](ctx, arg)
 
 
+def shrink(seq, still_fails, budget=500):
+    """greedy one-at-a-time removal (from the end) while the failure persists"""
+    i = len(seq) - 1
+    while i >= 0 and budget > 0:
+        cand = seq[:i] + seq[i + 1:]
+        budget -= 1
+        if cand and still_fails(cand):
+            seq = cand
+        i -= 1
+    return seq
+
+
+def _fails_cache(ops, kind):
+    sub = core.Ctx("C19", "quick", 0)
+    run_real_seq(sub, {"stream": "shrink", "ops": ops}, ops, every=True)
+    return any(f["kind"] == kind for f in sub.failures)
+
+
+def _fails_node(cfg, evs, kind):
+    sub = core.Ctx("C19", "quick", 0)
+    run_real_node(sub, {"stream": "shrink", "cfg": cfg, "evs": evs}, cfg, evs, [], every=True)
+    return any(f["kind"] == kind for f in sub.failures)
+
+
 def shard_random(ctx, spec):
     for i in range(spec["first"], spec["first"] + spec["count"]):
         rng = ctx.sub_rng("c19-random-%d" % i)
         ops = gen_random_ops(rng, 300, rich=(i % 2 == 1))
+        nf = len(ctx.failures)
         a = run_lockstep_cache(ctx, "random", ops)
+        if len(ctx.failures) > nf:
+            # minimise the first new failure: the replay should name a short history
+            rec = ctx.failures[nf]
+            small = shrink(rec["case"]["ops"], lambda o: _fails_cache(o, rec["kind"]))
+            del ctx.failures[nf:]
+            run_real_seq(ctx, {"stream": "random", "ops": small, "shrunk_from": len(ops)}, small, every=True)
         if i < 2:
             ctx.sample({"stream": "random", "ops": ops[:6], "digest_after_6": a[min(5, len(a) - 1)]["d"]})
         cfg = ["learned", "unknown", "single"][i % 3]
         evs = gen_random_evs(rng, 300, cfg)
+        nf = len(ctx.failures)
         b = run_lockstep_node(ctx, "node-random", cfg, evs)
+        if len(ctx.failures) > nf:
+            rec = ctx.failures[nf]
+            small = shrink(rec["case"]["evs"], lambda e: _fails_node(cfg, e, rec["kind"]))
+            del ctx.failures[nf:]
+            run_real_node(ctx, {"stream": "node-random", "cfg": cfg, "evs": small, "shrunk_from": len(evs)},
+                          cfg, small, [], every=True)
         if i < 2:
             ctx.sample({"stream": "node-random", "cfg": cfg, "evs": evs[:5], "digest_after_5": b[min(4, len(b) - 1)]["d"]})
 
